@@ -443,7 +443,7 @@ class C11(PropertyCheck):
             for p in sorted(cdir.glob("*.json")):
                 corpus.append(json.loads(p.read_text()))
         st = structured_cases()
-        n_rand = 900 if self.tier == "quick" else 12000
+        n_rand = 1500 if self.tier == "quick" else 40000
         rnd = [gen_case(self.rng) for _ in range(n_rand)]
         return corpus + st + rnd, len(corpus), len(st)
 
